@@ -440,7 +440,7 @@ class Evaluator:
             self.emit("break", s, locs=dict(st.locs), attrs=dict(st.attrs))
             if self._loop_flags and "unroll" in self._loop_flags[-1]:
                 fl = self._loop_flags[-1]
-                fl["brks"].append((self._pc_cond(fl["base"]), st.copy()))
+                fl["brks"].append((self._pc_cond(fl["base"]), st.copy(), self._pc_cond(fl["unroll"])))
             return None
         if isinstance(s, ast.Continue):
             self.emit("continue", s, locs=dict(st.locs), attrs=dict(st.attrs))
@@ -487,6 +487,10 @@ class Evaluator:
             if s.finalbody and res is not None:
                 res = self.exec_block(s.finalbody, res)
             return res
+        if isinstance(s, ast.Match):
+            chain = _match_as_if(s)
+            if chain is not None:
+                return self.exec_block(chain, st, keep=True)
         raise AnalysisError("unsupported statement %s at %s:%d" % (type(s).__name__, fr.func.file, s.lineno))
 
     _loop_flags = []
@@ -507,7 +511,7 @@ class Evaluator:
         self.pc.append(PC(cond, raw, pol, node, self.frames[-1].func))
 
     def exec_if(self, s, st):
-        c = self.ev(s.test, st)
+        c = _truth_of_len(self.ev(s.test, st))
         self.emit("test", s, cond=c, stmt=s)
         tv = T.truth(c) if T.is_pure_const(c) else None
         if tv is True:
@@ -548,7 +552,7 @@ class Evaluator:
         it = self.ev(s.iter, st) if is_for else None
         if is_for:
             ia = it.single_atom()
-            if ia is not None and ia[0] in ("tuple", "list") and 1 <= len(ia[1]) <= (8 if _cheap_body(s) else 2) and not any(
+            if ia is not None and ia[0] in ("tuple", "list") and 1 <= len(ia[1]) <= (12 if _cheap_body(s) else 2) and not any(
                     isinstance(n, ast.Return) or (isinstance(n, (ast.For, ast.While)) and n is not s) for n in ast.walk(s)):
                 fr.loop_n -= 1
                 return self._unrolled(s, ia[1], st)
@@ -635,9 +639,9 @@ class Evaluator:
             del self.pc[mark:]
             for cnd, cst in flags["conts"]:
                 end = cst if end is None else State(self._merge_maps(cnd, cst.attrs, end.attrs), self._merge_locs(cnd, cst.locs, end.locs))
-            for cnd, bst in flags["brks"]:
+            for cnd, bst, local in flags["brks"]:
                 broken.append((cnd, bst))
-                self.push_pc(cnd, False, s)   # the remaining copies run only when this one did not break
+                self.push_pc(local, False, s)   # the remaining copies run only when this one did not break (earlier negations are already on the path)
             st = end
         if s.orelse and st is not None:
             st = self.exec_block(s.orelse, st)  # the else block runs when no copy broke out (those conditions are on the pc)
@@ -793,6 +797,7 @@ class Evaluator:
                 if fld is not None:
                     # a local bound to the object a self attribute holds: mutating it in place mutates that attribute's object
                     path.append(("attr0", fld))
+                    self._alias_local = (e.id, fld)
                     return ("self", fld), path[::-1]
                 return ("local", e.id), path[::-1]
             elif isinstance(e, ast.Call):
@@ -806,9 +811,17 @@ class Evaluator:
                 v = self.ev(e, st)
                 return ("value", v), path[::-1]
 
+    _alias_local = None
+
     def _alias_of_attr(self, v, st):
         """field name when the local value v IS the (mutable) object currently held by a self attribute, else None"""
         a = v.single_atom() if isinstance(v, R) else None
+        if a is not None and a[0] == "call":
+            # an array / container built by a library call: only the very object the attribute holds (identity of the term object)
+            for k, val in st.attrs.items():
+                if val is v:
+                    return k
+            return None
         if a is None or a[0] not in ("attr", "appended", "mutated", "setitem", "list", "dict", "objstate", "loopvar", "new"):
             return None
         if a[0] == "attr":
@@ -834,6 +847,9 @@ class Evaluator:
                 aug = _as_increment(elem, v)
             new = self._apply_path(old, p, how, v)
             st.attrs[field] = new
+            if self._alias_local is not None and self._alias_local[1] == field:
+                st.locs[self._alias_local[0]] = new   # the alias keeps denoting the (now modified) object
+            self._alias_local = None
             if self.attr_writes is not None:
                 self.attr_writes.add(field)
             self.emit("mutate", stmt, attr=field, how=how, path=p, value=v, aug=aug, old=old)
@@ -988,6 +1004,8 @@ class Evaluator:
             return self.load_attr(e.attr, st, e)
         d = self._dotted_expr(e, st)
         if d is not None:
+            if d in ("math.inf", "numpy.inf", "numpy.Inf", "numpy.infty", "numpy.PINF"):
+                return const(float("inf"))   # the same value as float("inf")
             return atom(("global", d))
         base = self.ev(e.value, st)
         return self.mk_getattr(base, e.attr, st, e)
@@ -1012,6 +1030,8 @@ class Evaluator:
             if flds is not None and name in flds:
                 return a[1][flds.index(name)]
         if a is not None and a[0] == "global":
+            if a[1] + "." + name in ("math.inf", "numpy.inf", "numpy.Inf", "numpy.infty", "numpy.PINF"):
+                return const(float("inf"))   # the same value as float("inf")
             return atom(("global", a[1] + "." + name))
         if a is not None and a[0] == "ite":
             return T.mk_ite(a[1], self.mk_getattr(a[2], name), self.mk_getattr(a[3], name))
@@ -1166,6 +1186,7 @@ class Evaluator:
         if isinstance(e.op, ast.UAdd):
             return v
         if isinstance(e.op, ast.Not):
+            v = _truth_of_len(v)
             r = T.mk_not(v)
             return r if T.is_pure_const(r) else r.with_tree(("not", v))
         return atom(("invert", v))
@@ -1235,7 +1256,7 @@ class Evaluator:
         return T.mk_not(t) if neg else t
 
     def ev_IfExp(self, e, st):
-        c = self.ev(e.test, st)
+        c = _truth_of_len(self.ev(e.test, st))
         tv = T.truth(c) if T.is_pure_const(c) else None
         if tv is True:
             return self.ev(e.body, st)
@@ -1299,19 +1320,36 @@ class Evaluator:
     def _comp(self, kind, e, st, elts):
         fr = self.frames[-1]
         # a comprehension over a short literal collection is unrolled: [f(t) for t in (a, b)] == [f(a), f(b)]
-        if len(e.generators) == 1 and not e.generators[0].ifs and kind in ("list", "gen", "dict"):
+        if len(e.generators) == 1 and kind in ("list", "gen", "dict"):
             itv = self.ev(e.generators[0].iter, st)
             ia = itv.single_atom()
             if ia is not None and ia[0] in ("tuple", "list") and 1 <= len(ia[1]) <= 6:
                 sub = State(st.attrs, dict(st.locs))
                 out = []
+                decided = True
                 for x in ia[1]:
                     self.assign(e.generators[0].target, x, sub, e, quiet=True)
-                    out.append(tuple(self.ev(z, sub) for z in elts))
-                st.attrs = sub.attrs
-                if kind == "dict":
-                    return atom(("dict", tuple(out)))
-                return atom(("list", tuple(o[0] for o in out)))
+                    cvs = [self.ev(c_, sub) for c_ in e.generators[0].ifs]
+                    cnd = T.mk_and(cvs) if cvs else T.TRUE
+                    if T.is_pure_const(cnd) and T.truth(cnd) is False:
+                        continue
+                    if not T.is_pure_const(cnd):
+                        decided = False   # a filter that is not decided statically: the length of the result is not known
+                        mark_ = len(self.pc)
+                        self.push_pc(cnd, True, e)
+                        out.append((cnd, tuple(self.ev(z, sub) for z in elts)))
+                        del self.pc[mark_:]
+                    else:
+                        out.append((T.TRUE, tuple(self.ev(z, sub) for z in elts)))
+                if decided:
+                    st.attrs = sub.attrs
+                    if kind == "dict":
+                        return atom(("dict", tuple(o[1] for o in out)))
+                    return atom(("list", tuple(o[1][0] for o in out)))
+                if kind != "dict" and len(elts) == 1:
+                    # entries present under a condition each: enough for any(...) / all(...) over the result
+                    st.attrs = sub.attrs
+                    return atom(("flist", tuple((cn, o[0]) for cn, o in out)))
         sub = State(st.attrs, dict(st.locs))
         iters = []
         conds = []
@@ -1603,6 +1641,11 @@ class Evaluator:
                 (m, coef), = x.num
                 if len(m) == 1 and m[0][1] == 1 and m[0][0][0] == "call" and m[0][0][1] == "len" and coef.numerator == 1 and coef.denominator > 1:
                     return atom(("floordiv", atom(m[0][0]), const(coef.denominator)))
+        if d == "numpy.full" and len(args) == 2 and not kwargs and args[0].is_const() and args[0].const_value().denominator == 1 and 1 <= int(args[0].const_value()) <= 8:
+            # np.full(2, v) == np.array([v, v])
+            res = atom(("call", "numpy.array", (atom(("list", tuple(args[1] for _ in range(int(args[0].const_value()))))),), ()))
+            self.emit("call", node, callee=("lib", "numpy.array"), fi=None, args=res.single_atom()[2], kwargs=(), result=res)
+            return res
         if d == "len" and len(args) == 1 and not kwargs:
             # len(np.array(x)) == len(list(x)) == len(x);  len(x + c) == len(c * x) == len(x) for elementwise arithmetic with a scalar
             x = args[0]
@@ -1629,6 +1672,15 @@ class Evaluator:
             if la is not None and la[0] in ("tuple", "list") and 1 <= len(la[1]) <= 6:
                 # map(f, (a, b)) consumed here: [f(a), f(b)]
                 return atom(("list", tuple(self._call_value(args[0], [x], {}, st, node) for x in la[1])))
+        if d in ("any", "all") and len(args) == 1 and not kwargs:
+            la = args[0].single_atom()
+            if la is not None and la[0] == "flist" and all(T._boolish(v_) for _c, v_ in la[1]):
+                if d == "any":
+                    return T.mk_or([T.mk_and([c_, v_]) for c_, v_ in la[1]])
+                return T.mk_and([T.mk_or([T.mk_not(c_), v_]) for c_, v_ in la[1]])
+            if la is not None and la[0] in ("tuple", "list") and len(la[1]) <= 8 and all(T._boolish(x) for x in la[1]):
+                # any([a, b]) is a or b (no short-circuit matters for side-effect-free comparisons)
+                return (T.mk_or if d == "any" else T.mk_and)(list(la[1])) if la[1] else const(d == "all")
         if d == "zip" and len(args) >= 2 and not kwargs:
             lits = [x.single_atom() for x in args]
             if all(l is not None and l[0] in ("tuple", "list") for l in lits) and len({len(l[1]) for l in lits}) == 1 and len(lits[0][1]) <= 8:
@@ -1781,6 +1833,12 @@ class Evaluator:
         if name in _ARRAY_REDUCTIONS and ci is None and (ra is None or ra[0] not in ("global", "dict", "list", "tuple", "set")):
             # x.sum(axis=1) is numpy.sum(x, axis=1) for arrays, frames and series alike: one normal form for both spellings
             res = atom(("call", "numpy." + name, (recv,) + tuple(args), _kw(kwargs)))
+        if name in ("items", "keys", "values") and ci is None and not args and not kwargs and ra is not None and ra[0] == "dict" \
+                and all(T.is_pure_const(k_) for k_, _v in ra[1]) and len(ra[1]) <= 12:
+            # the entries of a literal table, in order
+            if name == "items":
+                return atom(("tuple", tuple(atom(("tuple", (k_, v_))) for k_, v_ in ra[1])))
+            return atom(("tuple", tuple((k_ if name == "keys" else v_) for k_, v_ in ra[1])))
         if name == "get" and ci is None and len(args) in (1, 2) and not kwargs:
             # d.get(k, default)  ==  d[k] if k in d else default   (default None when not given)
             dflt = args[1] if len(args) == 2 else T.NONE
@@ -1819,6 +1877,9 @@ class Evaluator:
                 if p:
                     newv = atom(("mutated", st.attrs.get(field, atom(("attr", field))), p, "method:" + name, atom(("tuple", tuple(args)))))
                 st.attrs[field] = newv
+                if self._alias_local is not None and self._alias_local[1] == field:
+                    st.locs[self._alias_local[0]] = newv
+                self._alias_local = None
                 if self.attr_writes is not None:
                     self.attr_writes.add(field)
                 self.emit("mutate", node, attr=field, how="method:" + name, path=p, value=atom(("tuple", tuple(args))), aug=None, old=recv, kwargs=_kw(kwargs))
@@ -1851,6 +1912,47 @@ def _cheap_body(loop):
                 if nm not in _CHEAP_CALLS:
                     return False
     return True
+
+
+def _match_as_if(s):
+    """`match subject:` with literal / None / alternative / wildcard patterns and no guards, as the equivalent if-chain"""
+    if not isinstance(s.subject, (ast.Name, ast.Attribute)):
+        return None
+
+    def test(p):
+        if isinstance(p, ast.MatchValue) and isinstance(p.value, ast.Constant):
+            return ast.Compare(left=s.subject, ops=[ast.Eq()], comparators=[p.value])
+        if isinstance(p, ast.MatchSingleton):
+            return ast.Compare(left=s.subject, ops=[ast.Is()], comparators=[ast.Constant(value=p.value)])
+        if isinstance(p, ast.MatchOr):
+            ts = [test(x) for x in p.patterns]
+            return None if any(t is None or t is True for t in ts) else ast.BoolOp(op=ast.Or(), values=ts)
+        if isinstance(p, ast.MatchAs) and p.pattern is None and p.name is None:
+            return True
+        return None
+    out = None
+    for case in reversed(s.cases):
+        if case.guard is not None:
+            return None
+        t = test(case.pattern)
+        if t is None:
+            return None
+        if t is True:
+            out = list(case.body)
+        else:
+            node = ast.If(test=t, body=list(case.body), orelse=out or [])
+            ast.copy_location(node, case.body[0])
+            ast.fix_missing_locations(node)
+            out = [node]
+    return out
+
+
+def _truth_of_len(c):
+    """`if len(x):` tests len(x) != 0"""
+    a = c.single_atom() if isinstance(c, R) else None
+    if a is not None and a[0] == "call" and a[1] == "len":
+        return T.mk_cmp("!=", c, const(0))
+    return c
 
 
 def _pure_literal(n, mi, depth=0):
